@@ -1678,6 +1678,18 @@ async fn apply_assignment(
         match new_value {
             ShellValueLiteral::Scalar(s) => {
                 export = export || shell.options().export_variables_on_modification;
+
+                // N.B. `name+=value cmd`: the binding created in the required scope starts
+                // from the value that is visible now, it does not replace it.
+                let s = if assignment.append {
+                    match shell.env_str(variable_name.as_str()) {
+                        Some(existing) => std::format!("{existing}{s}"),
+                        None => s,
+                    }
+                } else {
+                    s
+                };
+
                 ShellValue::String(s)
             }
             ShellValueLiteral::Array(values) => ShellValue::indexed_array_from_literals(values),
